@@ -72,3 +72,56 @@ def mutants(instrs):
         if a >= 2 and all(x.startswith('PUSH') for x in instrs[a - 2:a]) and b >= a + 3 and all(x.startswith('PUSH') for x in instrs[b - 2:b]):
             m = instrs[:a - 2] + instrs[b - 2:b + 1] + instrs[a + 1:b - 2] + instrs[a - 2:a + 1] + instrs[b + 1:]
             yield ('reordered-stores', m)
+
+
+def rule_shape_blocks(level=1):
+    """instantiations of the left-hand sides of the simplification rules: binary/unary operators applied to stack variables,
+    repeated variables and the constants the rules look for, alone, under ISZERO chains, next to an existing ISZERO of the same
+    operand, and followed by a second operator with a constant"""
+    consts = ["0", "1", "2", "ff", "ffffffffffffffffffffffffffffffffffffffff", "ffffffffffffffffffffffffffffffffffffffffffffffffffffffffffffffff"]
+    bin_ops = ["ADD", "SUB", "MUL", "DIV", "SDIV", "MOD", "SMOD", "EXP", "AND", "OR", "XOR", "LT", "GT", "SLT", "SGT", "EQ", "SHL", "SHR", "SAR",
+               "BYTE", "SIGNEXTEND"]
+    out = []
+    for op in bin_ops:
+        out.append(op)                                   # X op Y
+        out.append("DUP1 " + op)                         # X op X
+        for c in consts:
+            out.append("PUSH %s %s" % (c, op))           # c op X   (c on top)
+            out.append("PUSH %s SWAP1 %s" % (c, op))     # X op c
+    for op in ["ISZERO", "NOT"]:
+        out += [op, op + " " + op, op + " " + op + " " + op, "PUSH 0 " + op, "PUSH 1 " + op, "PUSH 0 %s %s" % (op, op)]
+    cmp_ops = ["LT", "GT", "SLT", "SGT", "EQ"]
+    for op in cmp_ops:
+        for c in ("0", "1"):
+            for form in ("PUSH %s %s", "PUSH %s SWAP1 %s"):
+                core = form % (c, op)
+                out.append(core + " ISZERO")
+                out.append(core + " ISZERO ISZERO")
+                out.append("DUP1 ISZERO SWAP1 " + core)              # an ISZERO of the same operand already exists
+                out.append("DUP1 ISZERO SWAP1 " + core + " ADD")
+                out.append("DUP1 " + core + " SWAP1 ISZERO ADD")
+        out.append(op + " ISZERO")
+        out.append(op + " ISZERO ISZERO")
+        out.append("DUP2 DUP2 %s SWAP2 SWAP1 %s ADD" % (op, op))        # the same comparison twice
+    out += ["ADDRESS BALANCE", "ADDRESS BALANCE ADDRESS BALANCE ADD", "CALLER PUSH ffffffffffffffffffffffffffffffffffffffff AND",
+            "PUSH ffffffffffffffffffffffffffffffffffffffff CALLER AND", "ORIGIN PUSH ffffffffffffffffffffffffffffffffffffffff AND ADDRESS AND",
+            "PUSH ffffffffffffffffffffffffffffffffffffffff AND PUSH ffffffffffffffffffffffffffffffffffffffff AND", "PUSH ff AND PUSH ff AND",
+            "PUSH ff AND PUSH ffff AND", "PUSH ff OR PUSH ff OR", "DUP2 AND AND", "DUP2 OR OR", "DUP2 OR AND", "DUP2 AND OR", "DUP1 DUP3 AND AND",
+            "PUSH 1 PUSH 2 SHL MUL", "PUSH 1 SWAP1 SHL MUL", "PUSH 1 SWAP1 SHL SWAP1 DIV", "PUSH 1 SWAP1 SHL DIV", "PUSH 2 EXP", "PUSH 2 SWAP1 EXP",
+            "PUSH 100 EXP", "PUSH 100 SWAP1 EXP", "PUSH 1 PUSH 4 SHL SWAP1 MUL", "PUSH 0 SUB PUSH 0 SUB", "PUSH 1 ADD PUSH 1 SWAP1 SUB", "PUSH 1 SWAP1 SUB PUSH 1 ADD",
+            "DUP1 SUB", "DUP1 XOR", "DUP2 SUB ISZERO", "DUP2 XOR ISZERO", "SUB ISZERO", "XOR ISZERO", "SUB ISZERO ISZERO", "DUP2 DUP2 SUB ISZERO SWAP2 EQ ADD",
+            "ISZERO ISZERO ISZERO ISZERO", "DUP1 ISZERO ISZERO SWAP1 ISZERO ADD", "PUSH 0 EQ", "PUSH 0 SWAP1 EQ", "PUSH 0 EQ ISZERO", "PUSH 1 EQ", "PUSH 1 AND PUSH 1 EQ",
+            "NOT NOT ADD", "DUP1 NOT NOT ADD", "NOT PUSH 0 NOT AND", "PUSH 0 NOT AND", "PUSH 0 NOT OR", "PUSH 0 NOT XOR"]
+    if level > 1:
+        extra = []
+        for a in out[:len(out)]:
+            if len(a.split()) <= 4:
+                extra.append(a + " ISZERO")
+                extra.append(a + " PUSH 0 ADD")
+        out += extra
+    seen, res = set(), []
+    for b in out:
+        if b not in seen:
+            seen.add(b)
+            res.append(b)
+    return res
